@@ -649,6 +649,48 @@ def gen_newreq_program(rng):
     return p, steps, {'bu': {bu}}
 
 
+def gen_cutoff_newreq_program(rng):
+    """Directed family for C04/C03: early cut-off meets a first-time require.  D re-executes with an output its requirer R
+    accepts (constant output, or a coarse output checker), while R is affected through another dependency and waits in the
+    queue; a third scheduled task T, which did not require R before, requires it for the first time in this build (a switch
+    source flipped).  T must wait for R (R is executed nested) and every task runs once."""
+    p = Prog(); p.kind = 'wf'; p.exact_only = True
+    p.sources = [0, 1, 2]
+    D, R, T = 0, 1, 2
+    p.tasks[D] = ('R', 0, 0, ('T', ('k', rng.randint(0, 9)) if rng.random() < 0.75 else ('a',)))
+    oc = 0 if rng.random() < 0.8 else 2
+    if oc != 0: p.exact_only = False
+    p.tasks[R] = ('Q', D, oc, ('R', 1, 0, ('T', ('a',)))) if rng.random() < 0.5 else ('R', 1, 0, ('Q', D, oc, ('T', ('a',))))
+    cond = ('I', ('l', 1), ('T', ('a',)), ('Q', R, 0, ('T', ('a',))))        # r2 = 0: nothing; otherwise require R
+    shape = rng.randrange(3)
+    if shape == 0:   p.tasks[T] = ('Q', D, 0, ('R', 2, 0, cond))
+    elif shape == 1: p.tasks[T] = ('R', 2, 0, ('Q', D, 0, cond))
+    else:            p.tasks[T] = ('R', 2, 0, cond)
+    tid = 3
+    top = T
+    if rng.random() < 0.5:
+        p.tasks[tid] = ('Q', T, 0, ('T', ('a',))); top = tid; tid += 1
+    if rng.random() < 0.3:      # a second requirer of D that accepts as well and has no other dependency
+        p.tasks[tid] = ('Q', D, oc, ('T', ('k', 1))); tid += 1
+    steps = [['E', '0', '1'], ['E', '1', '1'], ['E', '2', '0']]
+    first = [R, top] + [t for t in range(3, tid) if t != top]
+    rng.shuffle(first)
+    if rng.random() < 0.5:
+        steps.append(['S', str(len(first))] + sum((['q', str(t)] for t in first), []))
+    else:
+        steps += [['S', '1', 'q', str(t)] for t in first]
+    changed = [0] + ([1] if rng.random() < 0.85 else []) + ([2] if rng.random() < 0.85 else [])
+    for r in changed:
+        steps.append(['E', str(r), str(rng.randint(2, 4)) if r != 2 else '1'])
+    rng.shuffle(changed)
+    bu = len(steps)
+    steps.append(['S', '1', 'b', str(len(changed))] + [str(r) for r in changed])
+    allt = sorted(p.tasks)
+    probe = len(steps)
+    steps.append(['S', str(len(allt))] + sum((['q', str(t)] for t in allt), []))
+    return p, steps, {'bu': {bu}, 'probe': {probe: bu}}
+
+
 def gen_abort_bu_program(rng):
     """Directed family for C04/C19: tasks abort (panic guarded by a source value) in earlier sessions, which leaves tasks
     with recorded read dependencies but no output; the cause is then removed and a bottom-up build is run over the changed
@@ -814,6 +856,30 @@ def gen_mid_session_program(rng):
     bottom-up build of that session made tasks consistent -- and the change is then reported to a bottom-up build of the SAME
     session.  The bottom-up build must still bring every known task up to date."""
     p = Prog(); p.kind = 'wf'; p.exact_only = True
+    if rng.random() < 0.3:
+        # directed diamond: leaf A reads r50; a chain B_k -> .. -> B_1 -> A; X reads a marker (absent at first) and, once it exists,
+        # requires A and B_k (either order).  An earlier session makes the chain and X known; then one session requires A or
+        # B_k top-down, r50 and the marker change, and both are reported to a bottom-up build of that session.
+        p.sources = [50, 51]
+        k = rng.randint(1, 2)
+        p.tasks[0] = ('R', 50, 0, ('T', ('a',)))
+        for j in range(1, k + 1):
+            p.tasks[j] = ('Q', j - 1, 0, ('T', ('a',)))
+        x = k + 1
+        two = [0, k]; rng.shuffle(two)
+        p.tasks[x] = ('R', 51, 0, ('I', ('l', 0), ('T', ('a',)), ('Q', two[0], 0, ('Q', two[1], 0, ('T', ('a',))))))
+        pre = [k, x]; rng.shuffle(pre)
+        steps = [['E', '50', '1'], ['S', '2'] + sum((['q', str(t)] for t in pre), [])]
+        first = rng.choice([[0], [0], [k], [0, k]])
+        sess = sum((['q', str(t)] for t in first), []) + ['e', '50', str(rng.randint(2, 5)), 'e', '51', '1']
+        rep = ['50', '51']; rng.shuffle(rep)
+        sess += ['b', '2'] + rep
+        bu = len(steps)
+        steps.append(['S', str(len(first) + 3)] + sess)
+        allt = sorted(p.tasks)
+        probe = len(steps)
+        steps.append(['S', str(len(allt))] + sum((['q', str(t)] for t in allt), []))
+        return p, steps, {'bu': {bu}, 'probe': {probe: bu}}
     n = rng.randint(2, 4)
     p.sources = [50 + i for i in range(n)]
     # leaf tasks read one external source each; inner tasks require leaves / inner tasks
@@ -827,10 +893,26 @@ def gen_mid_session_program(rng):
         for x in rng.sample(leaves + tops, rng.randint(1, min(3, len(leaves + tops)))):
             body = ('Q', x, 0, body)
         p.tasks[tid] = body; tops.append(tid); tid += 1
+    # dynamic tasks: read a marker (absent at first, so no task dependencies are recorded); once the marker exists they require
+    # some leaves / inner tasks in a random order (diamonds through tasks the session already holds as consistent)
+    dyns = []; markers = []
+    for k in range(rng.randint(0, 2)):
+        mk = 50 + n + k
+        body = ('T', ('a',))
+        for x in rng.sample(leaves + tops, rng.randint(1, min(3, len(leaves + tops)))):
+            body = ('Q', x, 0, body)
+        p.tasks[tid] = ('R', mk, 0, ('I', ('l', 0), ('T', ('a',)), body)); dyns.append(tid); markers.append(mk); tid += 1
+    p.sources += markers
     steps = [['E', str(50 + i), '1'] for i in range(n)]
+    if dyns or rng.random() < 0.3:      # an earlier session in which (some of) the tasks become known
+        pre = rng.sample(tops + leaves + dyns, rng.randint(1, len(tops + leaves + dyns)))
+        for d in dyns:
+            if d not in pre and rng.random() < 0.7: pre.append(d)
+        steps.append(['S', str(len(pre))] + sum((['q', str(t)] for t in pre), []))
     roots = rng.sample(tops + leaves, rng.randint(1, len(tops)))
     first = sum((['q', str(t)] for t in roots), [])
     ch = rng.sample(range(n), rng.randint(1, n))
+    ch += [n + k for k in range(len(markers)) if rng.random() < 0.7]
     edits = sum((['e', str(50 + i), str(rng.randint(2, 5))] for i in ch), [])
     if rng.random() < 0.5:
         sess = first + edits + ['b', str(len(ch))] + [str(50 + i) for i in ch]
@@ -845,6 +927,33 @@ def gen_mid_session_program(rng):
     probe = len(steps)
     steps.append(['S', str(len(allt))] + sum((['q', str(t)] for t in allt), []))
     return p, steps, {'bu': {bu}, 'probe': {probe: bu}}
+
+
+def gen_td_mid_program(rng):
+    """Directed family for C02 (implementation only: the model's edits happen between sessions): external resources (ids >= 50)
+    change while a Session is alive, between two top-level requires of that session which reach common tasks.  Judged only
+    on 'a task is executed at most once per session' (what a later require of the same session returns is the session's view)."""
+    p = Prog(); p.kind = 'wf'; p.exact_only = True
+    n = rng.randint(1, 3)
+    p.sources = [50 + i for i in range(n)]
+    tid = 0; leaves = []
+    for i in range(n):
+        p.tasks[tid] = ('R', 50 + i, 0, ('T', ('a',))); leaves.append(tid); tid += 1
+    tops = []
+    for _ in range(rng.randint(1, 4)):
+        body = ('T', ('a',))
+        for x in rng.sample(leaves + tops, rng.randint(1, min(3, len(leaves + tops)))):
+            body = ('Q', x, 0, body)
+        p.tasks[tid] = body; tops.append(tid); tid += 1
+    steps = [['E', str(50 + i), '1'] for i in range(n)]
+    for _ in range(rng.randint(1, 3)):
+        sess = []; nops = 0
+        for j in range(rng.randint(2, 4)):
+            sess += ['q', str(rng.choice(tops + leaves))]; nops += 1
+            if rng.random() < 0.7:
+                sess += ['e', str(50 + rng.randrange(n)), str(rng.randint(2, 6))]; nops += 1
+        steps.append(['S', str(nops)] + sess)
+    return p, steps, {}
 
 
 def gen_sibling_program(rng):
